@@ -467,6 +467,7 @@ TIE_FILES = {   # tie file -> functions of pyerrors/obs.py it needs regenerated
     "Tie_scalef.v": ["_compute_scalefactor_missing_rep"],
     "Tie_jack.v": ["export_jackknife"],
     "Tie_drho.v": ["compute_drho_radicand"],
+    "Tie_covdot.v": ["_reduce_deltas", "covariance_calc_gamma"],      # imports Tie_reduce: list that file first
     "Tie_gamma.v": ["_expand_deltas", "_calc_gamma"],      # imports Tie_expand_deltas: list that file first
 }
 
